@@ -91,7 +91,12 @@ def create_task(coro: Callable[[], Awaitable[Any]], loop: Optional[asyncio.Abstr
                 future.cancel()
             raise
 
-    asyncio.run_coroutine_threadsafe(run_task(), loop)
+    def task_done(handle: Any) -> None:
+        # A task cancelled before its first step never enters the coroutine above: report that cancellation as well
+        if handle.cancelled() and not future.done():
+            future.cancel()
+
+    asyncio.run_coroutine_threadsafe(run_task(), loop).add_done_callback(task_done)
     return future
 
 
